@@ -298,7 +298,11 @@ harness(void)
 	bus0_sock_init(&sock, NULL);
 #endif
 #ifdef SENDBUF
-	sock.send_buf = SENDBUF;
+	{
+		/* through the real option setter (NNG_OPT_SENDBUF): it records the depth for pipes that attach later */
+		int v = SENDBUF;
+		CHECK(bus0_sock_set_send_buf_len(&sock, &v, sizeof(v), NNI_TYPE_INT32) == 0 && sock.send_buf == SENDBUF, "set SENDBUF");
+	}
 #endif
 	monitor();
 	SKEL
